@@ -263,11 +263,11 @@ class World:
                 w['hand'].connectionLost(None)
         self.settle()
 
-    def ev_reply(self, alg, t, out, new, k=0):
-        cands = [u for u in self.inflight if u['alg'] == alg and u['t'] == t]
-        if k >= len(cands):
+    def ev_reply(self, alg, t, out, new, old=None):
+        cands = [u for u in self.inflight if u['alg'] == alg and u['t'] == t and (old is None or u['stale'] == old)]
+        if not cands:
             return False
-        u = cands[k]
+        u = cands[0]
         self.inflight.remove(u)
         a = engine.alg_of(self.desc, alg)
         suc = {'success': True, 'failure': False, 'invalid': None}[out]
@@ -402,7 +402,7 @@ def run_job(job):
                 extra = []
                 if w.inflight:
                     u = w.inflight[0]
-                    extra = [{'ev': 'Reply', 'alg': u['alg'], 't': u['t'], 'out': 'success', 'new': [], 'k': 0}]
+                    extra = [{'ev': 'Reply', 'alg': u['alg'], 't': u['t'], 'out': 'success', 'new': []}]
                 else:
                     before = json.dumps(w.snapshot(), sort_keys=True)
                     w.obs = new_obs()
@@ -426,7 +426,7 @@ def run_job(job):
             elif ev == 'Tick':
                 w.ev_tick(e.get('auto', 8))
             elif ev == 'Reply':
-                ok = w.ev_reply(e['alg'], e['t'], e['out'], e.get('new', []), e.get('k', 0))
+                ok = w.ev_reply(e['alg'], e['t'], e['out'], e.get('new', []), e.get('old'))
             elif ev == 'Reload':
                 w.ev_reload(e.get('S', []))
             elif ev == 'Register':
